@@ -48,6 +48,9 @@ func Strings(o Opt) []Labeled {
 		// patterns, Go regexp expansion, the path template's own brace syntax)
 		{"replace-patterns", protoreflect.ValueOfString("a$&b$'c$`d$$e$1${x}")},
 		{"template-braces", protoreflect.ValueOfString("{id}{user_id}{}x")},
+		// whitespace at the ends is data (a lenient number parser may trim, a string binder may not)
+		{"padded-spaces", protoreflect.ValueOfString(" 42 ")},
+		{"padded-nbsp", protoreflect.ValueOfString("\u00a0draft\u00a0 ")},
 	}
 	if !o.URLSafe {
 		out = append(out, Labeled{"empty", protoreflect.ValueOfString("")})
@@ -148,6 +151,11 @@ func Timestamps() []struct {
 		{"day-end", 1704153599, 999999999}, // 2024-01-01T23:59:59.999999999Z
 		{"max", 253402300799, 999999999},
 		{"min", -62135596800, 0},
+		// inside the Timestamp range, outside what an int64 count of nanoseconds can hold (1677-09-21 .. 2262-04-11)
+		{"year-2500", 16725225600, 0},
+		{"year-1500", -14831769600, 0},
+		{"year-2263", 9246182400, 0},
+		{"year-1677", -9246096000, 0},
 	}
 }
 
@@ -209,6 +217,36 @@ func MapKey(fd protoreflect.FieldDescriptor, i int) protoreflect.MapKey {
 	default:
 		return protoreflect.ValueOfUint64([]uint64{1, 2, math.MaxUint64}[i%3]).MapKey()
 	}
+}
+
+// fieldLikeKeys returns map keys spelled like multi-word field names of md's file (both spellings),
+// or generic ones when the file declares none.
+func fieldLikeKeys(md protoreflect.MessageDescriptor) []string {
+	var names []string
+	seen := map[string]bool{}
+	var walk func(ms protoreflect.MessageDescriptors)
+	walk = func(ms protoreflect.MessageDescriptors) {
+		for i := 0; i < ms.Len(); i++ {
+			m := ms.Get(i)
+			if m.IsMapEntry() {
+				continue
+			}
+			for j := 0; j < m.Fields().Len(); j++ {
+				f := m.Fields().Get(j)
+				n := string(f.Name())
+				if strings.Contains(n, "_") && f.JSONName() != n && !seen[n] && len(names) < 4 {
+					seen[n] = true
+					names = append(names, n, f.JSONName())
+				}
+			}
+			walk(m.Messages())
+		}
+	}
+	walk(md.ParentFile().Messages())
+	if len(names) == 0 {
+		names = []string{"display_name", "displayName", "created_at"}
+	}
+	return names
 }
 
 // SetWKT fills a well-known-type message with a representative value.
@@ -362,6 +400,23 @@ func (g *Gen) FieldClasses(md protoreflect.MessageDescriptor, fd protoreflect.Fi
 				}
 			}
 			out = append(out, LMsg{"map-some", m})
+		}
+		// caller-chosen keys that are spelled like field names of the definition (proto and JSON spelling
+		// of multi-word fields declared in the same file): map keys are data, never names
+		if fd.MapKey().Kind() == protoreflect.StringKind {
+			mk2 := mk()
+			mp2 := mk2.Mutable(fd).Map()
+			for i, k := range fieldLikeKeys(md) {
+				var v protoreflect.Value
+				if vfd.Kind() == protoreflect.MessageKind {
+					v = mp2.NewValue()
+					g.fill(v.Message(), i, 2)
+				} else {
+					v = g.nonDefault(vfd, i)
+				}
+				mp2.Set(protoreflect.ValueOfString(k).MapKey(), v)
+			}
+			out = append(out, LMsg{"map-keys-like-field-names", mk2})
 		}
 	case fd.IsList():
 		out = append(out, LMsg{"list-empty", mk()})
